@@ -269,3 +269,6 @@ M("appenddb-filename-no-close", "io/db.py", "        _todb(table, dbo, tablename
 # ---- later additions -------------------------------------------------------------------------------------------------
 M("lookup-appends-in-place-breaks-shelve", LK, "            l = dictionary[k]\n            l.append(v)\n            dictionary[k] = l\n        else:\n            dictionary[k] = [v]\n\n    return dictionary\n\n\nTable.lookup = lookup",
   "            dictionary[k].append(v)\n        else:\n            dictionary[k] = [v]\n\n    return dictionary\n\n\nTable.lookup = lookup", ["C07"])
+M("recast-reducer-by-field-not-variable", RS, "                    if variable in reducers:\n                        redu = reducers[variable]", "                    if f in reducers:\n                        redu = reducers[f]", ["C14"])
+M("recast-single-value-reduced", RS, "                elif len(vals) == 1:\n                    val = vals[0]\n                else:\n                    if variable in reducers:", "                else:\n                    if variable in reducers:", ["C14"])
+M("recast-key-none-includes-ignored", RS, "        keyfields = [f for f in flds\n                     if f not in variablefields and f != valuefield]", "        keyfields = [f for f in flds\n                     if f not in variablefields and f != valuefield][:1]", ["C14"])
